@@ -7,11 +7,10 @@
 import re
 from collections import namedtuple
 
-from ural.patterns import DOMAIN_TEMPLATE
-from ural.utils import SplitResult, safe_urlsplit, pathsplit
+from ural.get_hostname import get_hostname
+from ural.utils import safe_urlsplit, pathsplit
 
 TWITTER_DOMAINS_RE = re.compile(r"(?:^|\.)(?:twitter|x)\.com$", re.I)
-TWITTER_URL_RE = re.compile(DOMAIN_TEMPLATE % r"(?:[^.]+\.)*(?:twitter|x)\.com", re.I)
 TWITTER_FRAGMENT_ROUTING_RE = re.compile(r"^!/?")
 TWITTER_SCREEN_NAME_BLACKLIST = {
     "explore",
@@ -40,10 +39,12 @@ def is_twitter_url(url):
         bool: Whether given url is from Youtube.
 
     """
-    if isinstance(url, SplitResult):
-        return bool(re.search(TWITTER_DOMAINS_RE, url.hostname))
+    hostname = get_hostname(url)
 
-    return bool(re.match(TWITTER_URL_RE, url))
+    if hostname is None:
+        return False
+
+    return bool(re.search(TWITTER_DOMAINS_RE, hostname))
 
 
 def normalize_screen_name(username):
